@@ -80,6 +80,11 @@ def cases(tier, seed):
         for n in (2304 - h - 1, 2304 - h, 2304 - h + 1, 4608 - h - 1, 4608 - h, 4608 - h + 1):
             for kind in ("dsk", "cas"):
                 yield {"kind": kind, "hist": [0, SAVE, "kb:{}:{}".format(kindname, n), SAVE, 1, SAVE]}
+    # ... and where its trailer (or its data) crosses a SECTOR boundary inside the last granule (the allocation table counts those sectors)
+    for kindname in ("ML", "BAS", "DATB", "ASC"):
+        for n in (245, 246, 247, 248, 250, 251, 253, 256, 503, 2552, 2553):
+            for kind in ("dsk", "cas"):
+                yield {"kind": kind, "hist": [0, SAVE, "kb:{}:{}".format(kindname, n), SAVE, 1, SAVE]}
     # names with punctuation in them (a stored name must not change when more files are appended)
     for nm in ("V.1.2", "A.B", "END.", "A-B", "X,Y", "#1", "0A0"):
         for kind in ("dsk", "cas"):
